@@ -28,3 +28,5 @@ import TFV.Properties.Src.Sampling
 #print axioms TFV.SrcTie.C11_src_random_sample_repl
 #print axioms TFV.SrcTie.C11_src_random_weighted_sample_norepl
 #print axioms TFV.SrcTie.C11_src_random_weighted_sample_repl
+#print axioms TFV.SrcTie.C11_src_sattolo_perm
+#print axioms TFV.SrcTie.C11_src_random_sample_distinct
